@@ -8,6 +8,9 @@
 //	Generated/SilentGraph.v for every function, method and package-level
 //	                        declaration the external identifiers it references,
 //	                        plus the logger-construction facts of C27
+//	Generated/Kernels.v     the small pure functions of kernels.go's table,
+//	                        translated statement by statement into Gallina
+//	Generated/KernelTie.v   the statements that each of them equals its model
 //
 // Only syntactic facts are extracted (go/parser + go/ast, identifiers resolved
 // through each file's import table and the parser's own scope resolution).
@@ -16,16 +19,19 @@
 package main
 
 import (
+	"encoding/json"
 	"flag"
 	"fmt"
 	"os"
 	"path/filepath"
+	"strings"
 )
 
 func main() {
 	repo := flag.String("repo", "/repo", "directory of package bloomsearch")
 	out := flag.String("out", "", "coq/Generated directory")
 	pkgName := flag.String("package", "bloomsearch", "package name to scan")
+	only := flag.String("kernels", "", "self-test: translate only these functions (comma separated) and write Kernels.v alone")
 	flag.Parse()
 	if *out == "" {
 		fmt.Fprintln(os.Stderr, "usage: bstranslate -repo DIR -out GENERATED_DIR")
@@ -40,13 +46,57 @@ func main() {
 		fmt.Fprintln(os.Stderr, "bstranslate:", err)
 		os.Exit(1)
 	}
+	if *only != "" {
+		kt := newKtrans(pkg)
+		var specs []kernelSpec
+		for _, f := range strings.Split(*only, ",") {
+			specs = append(specs, kernelSpec{name: strings.ReplaceAll(f, ".", "_"), goFunc: f})
+		}
+		text, notes := kt.emitKernels(specs)
+		for _, sp := range specs {
+			if err, bad := notes[sp.name]; bad {
+				fmt.Printf("kernel %s: not translated: %v\n", sp.name, err)
+			}
+		}
+		if _, err := writeIfChanged(filepath.Join(*out, "Kernels.v"), text); err != nil {
+			fmt.Fprintln(os.Stderr, "bstranslate:", err)
+			os.Exit(1)
+		}
+		return
+	}
 	consts, err := emitConsts(pkg)
 	if err != nil {
 		fmt.Fprintln(os.Stderr, "bstranslate: consts:", err)
 		os.Exit(1)
 	}
 	graph := emitGraph(pkg)
-	for name, text := range map[string]string{"Consts.v": consts, "SilentGraph.v": graph} {
+	kt := newKtrans(pkg)
+	kernels, notes := kt.emitKernels(kernelSpecs)
+	tie := kt.emitTie(kernelSpecs, notes)
+	type kernelReport struct {
+		Kernel     string   `json:"kernel"`
+		GoFunc     string   `json:"go_func"`
+		Properties []string `json:"properties"`
+		Translated bool     `json:"translated"`
+		Reason     string   `json:"reason,omitempty"`
+	}
+	var reports []kernelReport
+	for _, sp := range kernelSpecs {
+		r := kernelReport{Kernel: sp.name, GoFunc: sp.goFunc, Properties: sp.props, Translated: true}
+		if err, bad := notes[sp.name]; bad {
+			fmt.Printf("kernel %s: not translated: %v\n", sp.name, err)
+			r.Translated, r.Reason = false, err.Error()
+		}
+		reports = append(reports, r)
+	}
+	if js, err := json.MarshalIndent(reports, "", " "); err == nil {
+		if _, err := writeIfChanged(filepath.Join(*out, "kernels.json"), string(js)+"\n"); err != nil {
+			fmt.Fprintln(os.Stderr, "bstranslate:", err)
+			os.Exit(1)
+		}
+	}
+	for _, name := range []string{"Consts.v", "SilentGraph.v", "Kernels.v", "KernelTie.v"} {
+		text := map[string]string{"Consts.v": consts, "SilentGraph.v": graph, "Kernels.v": kernels, "KernelTie.v": tie}[name]
 		changed, err := writeIfChanged(filepath.Join(*out, name), text)
 		if err != nil {
 			fmt.Fprintln(os.Stderr, "bstranslate:", err)
